@@ -885,8 +885,22 @@ func SelfTest() int {
 
 // StaticNondeterminismScan lists sources of nondeterminism in the repository's packages (from SSA).
 func StaticNondeterminismScan(c *Ctx) map[string]interface{} {
-	var ranges, calls, convs []string
+	var ranges, calls, convs, gos, globals []string
 	seen := map[*ssa.Function]bool{}
+	globalRoot := func(v ssa.Value) *ssa.Global {
+		for {
+			switch x := v.(type) {
+			case *ssa.Global:
+				return x
+			case *ssa.FieldAddr:
+				v = x.X
+			case *ssa.IndexAddr:
+				v = x.X
+			default:
+				return nil
+			}
+		}
+	}
 	var visit func(f *ssa.Function)
 	visit = func(f *ssa.Function) {
 		if f == nil || seen[f] || f.Blocks == nil {
@@ -908,6 +922,16 @@ func StaticNondeterminismScan(c *Ctx) map[string]interface{} {
 						if strings.HasPrefix(n, "time.Now") || strings.HasPrefix(n, "math/rand.") || n == "os.Getenv" || n == "os.Environ" || strings.HasPrefix(n, "time.Since") {
 							calls = append(calls, where+" -> "+n)
 						}
+					}
+				case *ssa.Go:
+					gos = append(gos, where+" go statement")
+				case *ssa.Select:
+					gos = append(gos, where+" select")
+				case *ssa.Send:
+					gos = append(gos, where+" channel send")
+				case *ssa.Store:
+					if g := globalRoot(ins.Addr); g != nil && f.Name() != "init" && !strings.HasPrefix(f.Name(), "init#") {
+						globals = append(globals, where+" stores to "+g.String())
 					}
 				case *ssa.Convert:
 					if _, isP := ins.X.Type().Underlying().(*types.Pointer); isP {
@@ -945,7 +969,10 @@ func StaticNondeterminismScan(c *Ctx) map[string]interface{} {
 	sort.Strings(ranges)
 	sort.Strings(calls)
 	sort.Strings(convs)
-	return map[string]interface{}{"range_over_map": ranges, "time_rand_env_calls": calls, "pointer_to_integer_conversions": convs}
+	sort.Strings(gos)
+	sort.Strings(globals)
+	return map[string]interface{}{"range_over_map": ranges, "time_rand_env_calls": calls, "pointer_to_integer_conversions": convs,
+		"goroutines_and_channels": gos, "stores_to_package_level_variables_outside_init": globals}
 }
 
 // nativeFSTrace runs one case under strace and returns an offending path accessed
